@@ -8,7 +8,7 @@ HARNESS_OP = "C17"
 FRESH_PROCESS = False
 CASE_TIMEOUT = "10s"
 RULE = ("source trees of 1-5 paths (nested directories, 9 selected and 6 other extensions, extension lists "
-        "from empty to coca's default) whose files are sequences of 0-60 abstract items: code tokens (incl. the "
+        "from empty to coca's default, extensions of several parts such as .d.ts / .gradle.kts) whose files are sequences of 0-60 abstract items: code tokens (incl. the "
         "words TODO/FIXME, division, backslash), double-quoted / back-quoted / character literals containing "
         "//, /*, */, # and TODO with every escape of the grammar, and line, block and hash comments with any "
         "text (empty, one character, marker only, TODO / todo: / FIXME(al): / TODO (a.b+c@d) x, keyword glued "
@@ -188,7 +188,7 @@ def gen_items(rng, n=None, todo_p=0.6, p_comment=0.3, p_literal=0.2, kinds=("lin
     return finish(items, rng)
 
 SEL_NAMES = ["a.go", "b.py", "C.java", "d.js", "e.ts", "f.kt", "g.groovy", "build.gradle", "sub/i.go", "sub/deep/j.py",
-             "x.y.go", ".go", "sub/k.java"]
+             "x.y.go", ".go", "sub/k.java", "types.d.ts", "sub/api.spec.ts", "build.gradle.kts", "sub/app.min.js"]
 OTHER_NAMES = ["notes.txt", "h.go.bak", "README.md", "noext", "k.GO", "sub/m.gox", "goo",
                # names that END with the letters of a selected extension but not with the extension
                "cargo", "logo.svgo", "build.mjs", "x.mts", "w.ipy", "sub/mango", "dejava", "sub/api.cjs"]
@@ -205,6 +205,9 @@ def gen_exts(rng):
         return []
     if r < 0.45:
         return [rng.choice([".txt", ".md", ".bak", ".GO", ".gox"])]
+    if r < 0.6:
+        # extensions of more than one part (TypeScript declaration files, Kotlin build scripts, minified bundles)
+        return rng.sample([".d.ts", ".spec.ts", ".gradle.kts", ".min.js"], rng.randint(1, 3)) + rng.sample(DEFAULT_EXTS, rng.randint(0, 2))
     k = rng.randint(1, 4)
     return rng.sample(DEFAULT_EXTS, k)
 
